@@ -104,6 +104,14 @@ func runC15(w *World, tr *Trace) {
 				"procedural": {DecayHalfLife: 0, PinnedByDefault: r.Intn(2) == 0},
 			}
 		}
+		// the global half-life may be left at 0 (layers-only configuration, or reliance on the documented
+		// 7-day default): memories outside a configured layer then age with the default, so their creation
+		// times are spread over weeks instead of minutes
+		Hc := H
+		if r.Intn(4) == 0 {
+			cfg.DecayHalfLife = 0
+			Hc = 604800 * time.Second
+		}
 		now := time.Date(2000, 1, 1, 0, 0, 0, 0, time.UTC)
 		nowS := float64(now.Unix())
 		n := 3 + r.Intn(8)
@@ -118,11 +126,11 @@ func runC15(w *World, tr *Trace) {
 			switch r.Intn(4) {
 			case 0:
 			case 1:
-				meta["_created_at"] = num(nowS - float64(r.Intn(int(3*H.Seconds()))))
+				meta["_created_at"] = num(nowS - float64(r.Intn(int(3*Hc.Seconds()))))
 			case 2:
 				meta["_created_at"] = num(nowS + float64(1+r.Intn(1000)))
 			case 3:
-				meta["_created_at"] = num(nowS - float64(H.Seconds()))
+				meta["_created_at"] = num(nowS - float64(Hc.Seconds()))
 			}
 			switch r.Intn(6) {
 			case 0:
@@ -139,7 +147,7 @@ func runC15(w *World, tr *Trace) {
 				meta["memory_layer"] = pick(r, []string{"episodic", "procedural", "semantic"})
 			}
 			if r.Intn(4) == 0 {
-				meta["_access_count"] = float64(r.Intn(5))
+				meta["_access_count"] = num(float64(r.Intn(5)))
 			}
 			vec := []float32{1, float32(i%3) * 0.25}
 			ops = append(ops, Op{K: "add", Idx: c15Index, ID: fmt.Sprintf("m%d", i), Vec: vec, Meta: meta})
@@ -243,7 +251,15 @@ func runC15(w *World, tr *Trace) {
 				if gerr != nil {
 					continue
 				}
-				bc, _ := before.Metadata["_access_count"].(float64)
+				var bc float64 // the counter may have been stored as any Go number type
+				switch x := before.Metadata["_access_count"].(type) {
+				case float64:
+					bc = x
+				case int:
+					bc = float64(x)
+				case int64:
+					bc = float64(x)
+				}
 				ac, ok := after.Metadata["_access_count"].(float64)
 				if !ok || ac != bc+1 {
 					w.Fail("reinforce_counts_one", "access_count", fmt.Sprintf("op %d reinforce %s: _access_count %v -> %v", i, op.IDs[0], before.Metadata["_access_count"], after.Metadata["_access_count"]), i)
